@@ -36,10 +36,11 @@ import (
 // Beware when accessing the Replacer value; it may be nil!
 type ResponseRecorder struct {
 	*ResponseWriterWrapper
-	Replacer Replacer
-	status   int
-	size     int
-	start    time.Time
+	Replacer    Replacer
+	status      int
+	size        int
+	start       time.Time
+	wroteHeader bool
 }
 
 // NewResponseRecorder makes and returns a new ResponseRecorder.
@@ -57,13 +58,20 @@ func NewResponseRecorder(w http.ResponseWriter) *ResponseRecorder {
 // WriteHeader records the status code and calls the
 // underlying ResponseWriter's WriteHeader method.
 func (r *ResponseRecorder) WriteHeader(status int) {
-	r.status = status
+	// the status the client gets is that of the first call (or the 200
+	// implied by the first Write); net/http ignores any later one
+	if !r.wroteHeader {
+		r.status = status
+		// an informational header (1xx other than 101) is followed by the final one
+		r.wroteHeader = status >= 200 || status == http.StatusSwitchingProtocols
+	}
 	r.ResponseWriterWrapper.WriteHeader(status)
 }
 
 // Write is a wrapper that records the size of the body
 // that gets written.
 func (r *ResponseRecorder) Write(buf []byte) (int, error) {
+	r.wroteHeader = true
 	n, err := r.ResponseWriterWrapper.Write(buf)
 	if err == nil {
 		r.size += n
